@@ -101,6 +101,31 @@ fn main() {
                 let (_, _, a, b) = vh::murmur3_state(&h);
                 format!("{} {}", a, b)
             }
+            // tablets <N> (<first> <last>)*N <nf> <nl> <q>: pre-state installed raw, one add_tablet, then list + lookup
+            "tablets" => {
+                let n = num(1) as usize;
+                let vals: Vec<i64> = (2..a.len()).map(|i| num(i) as i64).collect();
+                catch_unwind(|| {
+                    let mut t = vh::Tablets::new();
+                    for i in 0..n {
+                        t.push_raw(vals[2 * i], vals[2 * i + 1], i as u32);
+                    }
+                    let (nf, nl, q) = (vals[2 * n], vals[2 * n + 1], vals[2 * n + 2]);
+                    t.add(nf, nl, 1000);
+                    let mut s = String::from("LIST");
+                    for i in 0..t.len() {
+                        let (f, l, tag) = t.get(i);
+                        s.push_str(&format!(" {},{},{}", f, l, tag));
+                    }
+                    s.push_str(" LOOKUP ");
+                    match t.lookup(q) {
+                        Some((f, l, tag)) => s.push_str(&format!("{},{},{}", f, l, tag)),
+                        None => s.push_str("None"),
+                    }
+                    s
+                })
+                .unwrap_or("PANIC".into())
+            }
             "token_new" => Token::new(num(1) as i64).value().to_string(),
             _ => "UNKNOWN".to_string(),
         };
